@@ -84,6 +84,35 @@ def random_case(rnd):
     return case, out, d
 
 
+def directed_cases():
+    """a worker with several accepted inputs (extra pending 2 or 3) answers some but not all of them and dies; the pool is
+    only let run afterwards, so it learns of the death from a refused enqueue (after reading the first answer) while later
+    answers are still unread; the rest of the schedule is completed greedily (poll when something is readable, else the
+    lowest live worker answers)."""
+    for nw in (2, 3):
+        for extra in (2, 3):
+            for w in range(nw):
+                for a in range(1, extra + 1):
+                    for kind in ('exit', 'fail'):
+                        for polled in (0, 1):
+                            if polled >= a:
+                                continue
+                            prefix = [('start',)] + [('ans', w)] * polled + [('poll',)] * polled + [('ans', w)] * (a - polled) + [(kind, w)]
+                            case = dict(nw=nw, inputs=list(range(1, nw * (extra + 1) + 3)), extra=extra, retry=True, rr=True,
+                                        script=prefix, refs=None, pre_closed=[])
+                            out, d = run(case)
+                            for _ in range(80):
+                                if not (out[0] == 'blocked' and d['script_left'] == 0):
+                                    break
+                                en = enabled(case['script'], d, 0)
+                                if not en:
+                                    break
+                                st = ('poll',) if ('poll',) in en else min(t for t in en if t[0] == 'ans')
+                                case['script'] = case['script'] + [st]
+                                out, d = run(case)
+                            yield case, out, d
+
+
 # ---------------------------------------------------------------- Coq terms
 def coq_list(xs, f=str):
     return '[' + '; '.join(f(x) for x in xs) + ']'
